@@ -67,6 +67,23 @@ def run(tier):
     dio = [{"ops": [{"op": "write", "rec": rng.choice(list(recs) + ["NIL", "EMPTY"]), "j": 0} for _ in range(rng.randrange(0, 30))] + [{"op": "close", "rec": "", "j": 0}],
             "comp": c % 4, "wbuf": 4096, "rbuf": 4096, "directio": True, "readprog": [0, 1], "seekall": False, "seeks": [0, 8, 50], "damage": ""} for c in range(8)]
     batches.append(("directio", recs, dio))
+    # files in the three older format versions the readers still accept (the harness lays them out: the library has no writer for them any more):
+    # the same writer programs decide which records the file holds; versions 1 and 2 have no nil flag (only payload records), version 1 no SeekNext
+    nleg = 400 if thorough else 90
+    for ver in (1, 2, 3):
+        for fi, fam in enumerate(["tiny", "marker", "page"] if not thorough else FAMS):
+            recs = riorun.payload_family(fam, rng, bufs=(16, 64, 4096))
+            toks = list(recs)
+            cases = []
+            for p in progs[(ver * 7 + fi)::max(1, len(progs) // nleg)][:nleg]:
+                ops = riorun.concretize_ops(p, toks, rng)
+                if ver < 3:
+                    ops = [dict(op, rec=(rng.choice(toks) if op["rec"] in ("NIL", "EMPTY") else op["rec"])) for op in ops]
+                cases.append({"ops": ops, "comp": len(cases) % 4, "wbuf": 0, "rbuf": rng.choice([16, 64, 4096, 0, 5]), "directio": False, "legacy": ver,
+                              "readprog": rng.choice([[0], [1, 0], [0, 1, 1], [0, 0, 1]]), "seekall": fam not in ("page", "marker") or (fam == "page" and len(cases) % 6 == 0),
+                              # versions 2 and 3 have no header checksum: marker bytes inside a payload are indistinguishable from a record start there
+                              "seeks": [] if fam == "marker" else [0, 8, 9, 100, 4095, 4096, 4097], "damage": ""})
+            batches.append(("legacy-v%d-%s" % (ver, fam), recs, cases))
     total = riorun.run_batches(o, binary, batches, "C04")
     o.evaluations = total
     o.nontrivial = sum(1 for p in progs if any(h["op"] == "seek" for h in p)) + nlong + 12
